@@ -117,23 +117,7 @@ class Pairing:
                         "%s: every path to the exit pushes the time on %s" % (origin_desc, "/".join(kinds)))
             return
         # lift to call sites
-        target = fn
-        if fn.is_closure:
-            parent = self.P.fns.get(fn.name.rsplit("::{closure", 1)[0])
-            if parent is None:
-                self.ctx.ob(self.rule + ".F6.timer-paired", key, False, fn.loc(bb, idx), origin_desc + ": closure without parent")
-                return
-            # the call in the parent that receives this closure
-            recv_calls = []
-            ptr = tracer(self.P, parent)
-            for b, t in parent.calls():
-                for a in t["args"]:
-                    e = ptr.operand(a, endpos(parent, b))
-                    if any(x[0] == "closure" and x[1] == fn.name for x in walk(e)):
-                        recv_calls.append((parent, b, t))
-            sites = recv_calls
-        else:
-            sites = self.P.call_sites_of(fn.name)
+        sites = self.lift_sites(fn)
         if depth >= 3 or not sites:
             self.ctx.ob(self.rule + ".F6.timer-paired", key, False, fn.loc(bb, idx),
                         "%s is not followed by a push on the timer heap (or a carrier) on every path, and cannot be lifted to a caller" % origin_desc)
@@ -151,15 +135,49 @@ class Pairing:
                             "%s, called here: the caller pushes the time on %s on every path" % (origin_desc, "/".join(kinds)))
             else:
                 # lift once more if the caller just forwards the object
-                if not g.is_closure and depth + 1 < 3 and self._forwards_object(g, t):
+                if not g.is_closure and depth + 1 < 3 and self.lift_sites(g) and self._returns_flag(g):
                     self.check_site(g, cb, None, field, None, what + " via " + fn.short, depth + 1, origin_desc)
                 else:
                     self.ctx.ob(self.rule + ".F6.timer-paired", k2, False, g.loc(cb),
                                 "%s, called here, is not followed by a push of the new time on the timer heap or a carrier: "
                                 "on a silent network nothing wakes the daemon when it falls due" % origin_desc)
 
-    def _forwards_object(self, g, t):
-        return False
+    def _returns_flag(self, g):
+        """the function reports to its caller whether a timer is needed (bool) or hands back times"""
+        return (g.ret or "") in ("bool",) or "u64" in (g.ret or "")
+
+    def receiving_calls(self, closure_fn):
+        """calls in the (non-closure) ancestor that receive this closure as an argument"""
+        parent = self.P.fns.get(closure_fn.name.rsplit("::{closure", 1)[0])
+        if parent is None:
+            return []
+        out = []
+        ptr = tracer(self.P, parent)
+        for b, t in parent.calls():
+            for a in t["args"]:
+                e = ptr.operand(a, endpos(parent, b))
+                if any(x[0] == "closure" and x[1] == closure_fn.name for x in strip(e)):
+                    out.append((parent, b, t))
+        if parent.is_closure:
+            # nested closure: relocate further up
+            res = []
+            for (p_, b, t) in out:
+                res.extend(self.receiving_calls(p_))
+            return res
+        return out
+
+    def lift_sites(self, fn):
+        if fn.is_closure:
+            return self.receiving_calls(fn)
+        out = []
+        for (g, cb, t) in self.P.call_sites_of(fn.name):
+            if g.in_tests():
+                continue
+            if g.is_closure:
+                out.extend(self.receiving_calls(g))
+            else:
+                out.append((g, cb, t))
+        return out
 
 
 def check_timer_pairing_fn(ctx, P, rule, fnname):
@@ -206,7 +224,7 @@ def _check_call_site(pr, g, cb, t, callee, field, what):
         for b, tt in parent.calls():
             for a in tt["args"]:
                 e = ptr.operand(a, endpos(parent, b))
-                if any(x[0] == "closure" and x[1] == g.name for x in walk(e)):
+                if any(x[0] == "closure" and x[1] == g.name for x in strip(e)):
                     _check_call_site(pr, parent, b, tt, callee, field, what)
                     return
         pr.ctx.ob(pr.rule + ".F6.timer-paired", "%s|%s" % (g.name, what), False, g.loc(cb), "closure call site cannot be located")
